@@ -27,6 +27,7 @@ type Obligation struct {
 	TimeS   float64
 	Output  string
 	SMTLen  int
+	Short   bool // expected to fail (open known finding): one short attempt
 	Cached  bool
 }
 
